@@ -17,6 +17,7 @@ import TsrunVerif.Driver.Pratt
 import TsrunVerif.Driver.Lib
 import TsrunVerif.Driver.Obj
 import TsrunVerif.Driver.Comb
+import TsrunVerif.Driver.Coerce
 
 /-! `tvdriver <model>`: line protocol, one observation line per case line. -/
 
@@ -47,6 +48,7 @@ def main (args : List String) : IO UInt32 := do
   | ["orders"] => loop stdin stdout TsrunVerif.Driver.ordersLine; return 0
   | ["roots"] => loop stdin stdout TsrunVerif.Driver.rootsLine; return 0
   | ["life"] => loop stdin stdout TsrunVerif.Driver.lifeLine; return 0
+  | ["coerce"] => loop stdin stdout TsrunVerif.Driver.coerceLine; return 0
   | ["comb"] => loop stdin stdout TsrunVerif.Driver.combLine; return 0
   | ["obj"] => loop stdin stdout TsrunVerif.Driver.objLine; return 0
   | ["lib"] => loop stdin stdout TsrunVerif.Driver.libLine; return 0
